@@ -34,7 +34,7 @@ PROPS["C11"] = {
              "distinct = FNV-64 of the serialised case"),
     "assumptions": ["math/big is correct", "verifref's RFC 9496 transcription is correct (reproduces all RFC 9496 appendix A vectors)"],
     "units": [{
-        "pkg": "curve", "configs": ALL4,
+        "pkg": "curve", "configs": ALL4Q,
         "tests": {
             "TestC11Decode": T(8000, 500000),
             "TestC11MarshalOwnership": T(1500, 40000),
